@@ -59,6 +59,8 @@ LoadMem(mem, ty, b, o) ==
             THEN IntV(ExtTy(ty, BytesWord([i \in 1..n |-> cs[i].v])))
             ELSE IF ty \in {"i64", "u64", "p"} /\ \A i \in 1..n : cs[i].k = "p" /\ cs[i].i = i /\ cs[i].b = cs[1].b /\ cs[i].o = cs[1].o
                  THEN PtrV(cs[1].b, cs[1].o)
+                 ELSE IF ty \in {"i64", "u64", "p"} /\ \A i \in 1..n : cs[i].k = "fnc" /\ cs[i].i = i /\ cs[i].f = cs[1].f
+                 THEN FnV(cs[1].f)                                    \* ref data item naming a function
                  ELSE IF ty \in {"i64", "u64", "p"} /\ \A i \in 1..n : cs[i].k = "l" /\ cs[i].i = i /\ cs[i].f = cs[1].f /\ cs[i].l = cs[1].l
                  THEN LabV(cs[1].f, cs[1].l)                          \* one-label lref item
                  ELSE IF ty \in {"i64", "u64"} /\ \A i \in 1..n : cs[i].k = "ld" /\ cs[i].i = i /\ cs[i].f = cs[1].f /\ cs[i].a = cs[1].a /\ cs[i].b = cs[1].b
